@@ -5,31 +5,17 @@ open Model
 
 (* ---------- conversions ---------- *)
 
-let ascii_of_char (c : char) : ascii =
-  let n = Char.code c in
-  let b i = (n lsr i) land 1 = 1 in
-  Ascii (b 0, b 1, b 2, b 3, b 4, b 5, b 6, b 7)
-
-let char_of_ascii (a : ascii) : char =
-  match a with
-  | Ascii (b0, b1, b2, b3, b4, b5, b6, b7) ->
-      let v b i = if b then 1 lsl i else 0 in
-      Char.chr (v b0 0 + v b1 1 + v b2 2 + v b3 3 + v b4 4 + v b5 5 + v b6 6 + v b7 7)
-
-let cstr (s : Stdlib.String.t) : string =
-  let r = ref EmptyString in
+(* Coq strings are extracted to char lists (ExtrOcamlString) *)
+let cstr (s : Stdlib.String.t) : char list =
+  let r = ref [] in
   for i = Stdlib.String.length s - 1 downto 0 do
-    r := String (ascii_of_char s.[i], !r)
+    r := s.[i] :: !r
   done;
   !r
 
-let ostr (s : string) : Stdlib.String.t =
+let ostr (s : char list) : Stdlib.String.t =
   let b = Buffer.create 256 in
-  let rec go = function
-    | EmptyString -> ()
-    | String (a, r) -> Buffer.add_char b (char_of_ascii a); go r
-  in
-  go s; Buffer.contents b
+  List.iter (Buffer.add_char b) s; Buffer.contents b
 
 let rec pos_of_int (i : int) : positive =
   if i = 1 then XH else if i land 1 = 1 then XI (pos_of_int (i lsr 1)) else XO (pos_of_int (i lsr 1))
